@@ -29,6 +29,7 @@ G_K = 'start: (KW | ID | NUM)+\nother: ID+\nKW.2: "ab"\nID: /[a-b]+/\nNUM.-1: /[
 G_N = '%import .mid (x, B)\nstart: x+\nother: B+\n%ignore " "\n%ignore "("\n%ignore ")"\n%ignore "c"\n'       # g -> mid -> leaf: a NESTED import
 MID = '%import .leaf (A)\nx: A [B] "!"\nB: "b"\n'
 LEAF = ['A: "a"\n', 'A: "a" | "A"\n', 'A: /a+/\n', 'A: "A"\n']                                                    # versions 0 and 3 have the same size
+G_K2 = 'start: (X | Y | KW | ID)+\nother: ID+\nX.2: /a/\nY: /a|b/\nKW.-1: "bb"\nID: /b+/\n%ignore " "\n%ignore "!"\n%ignore "("\n%ignore ")"\n%ignore "c"\n'
 SUB = ['A: "a"\nB: "b"\n', 'A: "a" | "A"\nB: "bb"\n', 'A: /a+/\nB: "b"\n', 'A: "a"\nB: "c"\n']       # versions 0 and 3 have the same size
 
 
@@ -67,8 +68,17 @@ POOL = {
     'K': dict(g=G_K, o={}),
     'K-inv': dict(g=G_K, o={'priority': 'invert'}),
     'K-basic': dict(g=G_K, o={'lexer': 'basic'}),
+    'K2': dict(g=G_K2, o={}),                                    # priorities decide between colliding terminals ...
+    'K2-none': dict(g=G_K2, o={'priority': None}),               # ... None is a meaningful value (priorities off), not "option absent"
+    'K2-inv': dict(g=G_K2, o={'priority': 'invert'}),
+    'K2-normal': dict(g=G_K2, o={'priority': 'normal'}),         # the default given explicitly: same parser as K2
+    'A-ph-explicit': dict(g=G_A, o={'maybe_placeholders': True}),   # the default given explicitly: same parser as A
+    'A-noflags': dict(g=G_A, o={'g_regex_flags': 0}),
+    'A-start-list': dict(g=G_A, o={'start': ['start']}),
     'BIG': dict(g=_big(), o={}),
 }
+OPTION_DEFAULTS = {'maybe_placeholders': True, 'keep_all_tokens': False, 'propagate_positions': False, 'lexer': 'contextual', 'start': ['start'],
+                   'g_regex_flags': 0, 'use_bytes': False, 'strict': False, 'regex': False, 'priority': 'normal', 'import_paths': []}
 QUICK_KEYS = [k for k in POOL if k != 'BIG']
 CONC_KEYS = [k for k in QUICK_KEYS if not POOL[k].get('cwd')]      # the simulated cwd is per process; concurrent procs share the facade
 TEXTS = ['a b c !', 'a !', 'a c !', '( a b ! )', 'a b', 'b b', 'A !', 'a bb !', 'a b cc ! a !', '', 'a ! ?', 'aa !', 'k001 a ! k119 !', 'k120 !']
@@ -92,7 +102,12 @@ class Env:
         """the semantic key of the statement: grammar text, options, imported-file contents, lark / python version.
         (Where the files live is not part of it: two directories with identical contents denote the same parser.)"""
         k = POOL[keyname]
-        return ('g%x' % (jhash(k['g']) & 0xffffff), repr(sorted(k['o'].items())), tuple(self.sub[p] % 4 for p in k.get('imports', ())),
+        o = dict(OPTION_DEFAULTS)
+        o.update(k['o'])
+        if isinstance(o['start'], str):
+            o['start'] = [o['start']]
+        o.pop('cache_grammar', None)              # (stores more in the file, denotes the same parser)
+        return ('g%x' % (jhash(k['g']) & 0xffffff), repr(sorted(o.items(), key=lambda kv: kv[0])), tuple(self.sub[p] % 4 for p in k.get('imports', ())),
                 self.lark_version, tuple(self.py) if self.py else None)
 
 
@@ -162,7 +177,8 @@ class C12(Check):
         nk = rng.choice([1, 2, 2, 3, 4])
         hk = [rng.choice(keys) for _ in range(nk)]
         if rng.random() < 0.3:
-            hk += rng.choice([['I1', 'I2'], ['O1', 'O2'], ['S1', 'S2'], ['O1', 'I1', 'S1'], ['P1', 'P2'], ['P2', 'P21', 'P1'], ['K', 'K-inv', 'K-basic'], ['N1', 'N1'], ['A', 'A-cb', 'A-tr']])
+            hk += rng.choice([['I1', 'I2'], ['O1', 'O2'], ['S1', 'S2'], ['O1', 'I1', 'S1'], ['P1', 'P2'], ['P2', 'P21', 'P1'], ['K', 'K-inv', 'K-basic'], ['N1', 'N1'], ['A', 'A-cb', 'A-tr'], ['K2', 'K2-none', 'K2-inv', 'K2-normal'],
+                              ['A', 'A-ph-explicit', 'A-noflags', 'A-start-list', 'A-noph']])
         paths = ['c1'] if rng.random() < 0.7 else ['c1', 'c2']
         if rng.random() < 0.15:
             paths.append(True)
